@@ -384,8 +384,7 @@ def path(ctx, arg):
     m = text_diff(w, printed, exp)
     if m is not None:
         viol('placement', m, 'rendered %r, the documented rules give %r' % (mstr(m, printed), mstr(m, exp)), out=mstr(m, printed), expected=mstr(m, exp))
-        return
-    # C01: well-formed, ASCII, accepted by zerv's own parser
+    # C01 (judged independently of the placement verdict): well-formed, ASCII, accepted by zerv's own parser
     bad = [c > 127 for c in printed if not isinstance(c, int)] + [z3.BoolVal(True) for c in printed if isinstance(c, int) and c > 127]
     if bad:
         m = w.find(z3.Or(bad))
